@@ -1,7 +1,8 @@
 import GlmVerif.Spec.C12
-import GlmVerif.Gen.C12
-/-! table check of family `sdistance` against the model generated from /repo (kernel evaluation) -/
+import GlmVerif.Gen.C12.sdistance
+/-! table check of family `sdistance` against the model of its units generated from /repo (kernel evaluation) -/
 namespace Glm.Props.C12
 open Glm Glm.Spec.C12 Glm.Gen.C12
-theorem sdistance_ok : f_sdistance.ok lookup = true := by decide +kernel
+set_option maxHeartbeats 4000000 in
+theorem sdistance_ok : f_sdistance.ok (fun _ ks => sdistance_L ks) = true := by decide +kernel
 end Glm.Props.C12
